@@ -94,6 +94,8 @@ type Exec struct {
 	fsSeq       int
 	fsModelOn   bool
 	fsFaultBudget int
+	callerFile  Str
+	callerLine  *Term
 	curFn       *ssa.Function
 	fsStatDirs  bool
 	fsFaultOps  map[string]bool
